@@ -14,7 +14,7 @@ from ..model import src
 from ..report import Report, key_of
 from ..terms import dag_nodes, pretty
 from ..types import Ctx
-from .common import TRUSTED_BASE, cfg_nodes_for, effects_of, inl, resolve_expr, subst_single_assign, where
+from .common import TRUSTED_BASE, cfg_nodes_for, effects_of, facts_text, inl, resolve_expr, subst_single_assign, where
 
 
 def _self_calls(A, f, name):
@@ -151,6 +151,16 @@ def run(A, R: Report, thorough: bool):
     dom_ok = key_raise is not None and all(_test_dominates(cfg, key_raise, r) for r in rets)
     R.check(key_raise is not None and ret_ok and dom_ok, 'R14.3', 'JsonCache.load_value', key_of('key-check', key_raise is not None, ret_ok, dom_ok),
             f'key verified on `{loaded_var}` before its value is returned', 'stored key is not verified against the requested key before the value is returned (a hash-colliding or misplaced file would be returned as this key\'s value)', where=where(lv))
+    # the forbidden-None check tests identity with None, not truthiness (0, '', [] and False are legitimate values)
+    for rn in raises:
+        if rn is key_raise:
+            continue
+        fx = facts_text(A, lv, cfg, rn.id)
+        truthy = [(t_, pol) for t_, pol in fx if not pol and (t_.endswith("['value']") or t_.endswith('["value"]'))]
+        ident = [(t_, pol) for t_, pol in fx if 'is None' in t_ or 'is not None' in t_ or '== None' in t_]
+        if truthy and not ident:
+            R.violation('R14.3', 'JsonCache.load_value: None check', key_of('none-by-truthiness', truthy[0][0]), f'the stored value is rejected when `{truthy[0][0]}` is falsy: with allow_nones=False a stored 0, "", [] or False can be written but never read back (CacheException on every later access)',
+                        where=where(lv, rn.ast))
     sv = jc.methods.get('save_value')
     dumps = [n for n in inl(A, sv) if isinstance(n, ast.Call) and src(n.func).endswith('dump') and n.args and isinstance(subst_single_assign(A, sv, n.args[0]), ast.Dict)]
     if dumps:
